@@ -257,6 +257,24 @@ def run_case(ctx, case):
                     if got.shape != (2,) or not (np.isfinite(g) and abs(mp.mpf(float(g)) - ref) <= 1e-5 * abs(ref)):
                         ctx.violation('hyperu:high-order:value', {'a': repr(a), 'type_of_a': type(a).__name__, 'b': b, 'x': x, 'n': n, 'got': float(g), 'want': mp.nstr(ref, 17)}); return
                     ctx.ok('hyperu', ('hyperu', 'high', type(a).__name__, n))
+        # array-valued parameters (the scipy idiom hyperu([a1, a2, a3], b, x): one parameter per point, or broadcast against the
+        # points): element i is what the scalar spelling hyperu(a_i, b_i, x_i, n=n) gives (decided against mpmath above and in the sweep)
+        for rep in range(6):
+            aa = np.array([[1.0, 2.5, 0.5], [3.0, 1.5, 2.0], [0.25, 4.0, 1.0]][rep % 3]) + float(a) * 0.0
+            bb = [1.5, np.array([1.5, 0.75, 2.5]), 2.25][rep % 3]
+            xx = [np.array([0.7, 1.3, 2.9]), 1.7, np.array([[0.9], [2.2]])][(rep // 2) % 3]
+            for n in (0, 1, 2, 3, 5):
+                try:
+                    got = np.asarray(f(aa, bb, xx, n=n))
+                    want_shape = np.broadcast_shapes(aa.shape, np.shape(bb), np.shape(xx))
+                    A_, B_, X_ = (np.broadcast_to(np.asarray(v, dtype=float), want_shape) for v in (aa, bb, xx))
+                    ref = np.array([float(np.asarray(f(float(A_[i]), float(B_[i]), float(X_[i]), n=n))) for i in np.ndindex(*want_shape)]).reshape(want_shape)
+                except Exception as e:
+                    ctx.violation('hyperu:array-parameters:raises', {'n': n, 'a': aa.tolist(), 'error': repr(e)[:160]}); return
+                if got.shape != tuple(want_shape) or not np.all(np.abs(got - ref) <= 1e-12 * np.abs(ref)):
+                    ctx.violation('hyperu:array-parameters:value', {'n': n, 'a': aa.tolist(), 'b': np.asarray(bb).tolist(), 'x': np.asarray(xx).tolist(),
+                                                                     'got': np.asarray(got).tolist(), 'want_from_scalar_calls': ref.tolist()}); return
+                ctx.ok('hyperu', ('hyperu', 'array-parameters', rep, n))
         return
     if case['kind'] == 'polygamma_array':
         # the order m given as an array (one order per point, the scipy idiom polygamma([0, 1, 2], x)), mixing 0 and non-zero orders
